@@ -206,6 +206,9 @@ type BisimOpts struct {
 	DateSlackMs  int64
 	IgnoreClass  bool
 	WireNumbers  bool // int and long compare by number (top-level widening)
+	// Pairing, when non-nil, records which a-node each container of b was matched with; a
+	// container of b reached again (through a reference) must be matched with the same a-node.
+	Pairing map[*rh.Value]*rh.Value
 }
 
 // Bisim compares two abstract graphs (Ref nodes are followed through Target). It
@@ -248,6 +251,12 @@ func bisim(a, b *rh.Value, o BisimOpts, path string, seen map[[2]*rh.Value]bool,
 		return ""
 	}
 	key := [2]*rh.Value{a, b}
+	if o.Pairing != nil && (b.K == rh.List || b.K == rh.Map || b.K == rh.Object) && (a.K == b.K) {
+		if prev, ok := o.Pairing[b]; ok && prev != a {
+			return fmt.Sprintf("%s: reference resolves to container #%d, which stands for a different object of the original value", path, b.Ordinal)
+		}
+		o.Pairing[b] = a
+	}
 	if seen[key] {
 		return ""
 	}
